@@ -412,8 +412,10 @@ impl Model {
             if let Some(KeyInfo { st: KeyState::Item(it), .. }) = self.keys.get(&d.key) {
                 let e = d.expiry();
                 if e > it.upper {
+                    // the bound comes from a delayed flush's deadline, or from the item's own TTL
+                    let clause = if it.upper < it.own_upper { "flush-deadline" } else { "expiry-prolonged" };
                     out.push(v(
-                        "expiry-prolonged",
+                        clause,
                         format!(
                             "{} will be returned until t={} but must miss from t={} (now {})",
                             wire::show(&d.key),
